@@ -67,11 +67,14 @@ func refDur(expr string, rule *string, isAlert bool) bool {
 	return false
 }
 
-func refCond(naive bool, m config.Match, cmd string, e discovery.Entry) bool {
+func refCond(naive bool, m config.Match, cmd string, e discovery.Entry, isIgnore bool) bool {
 	if m.Command != nil && string(*m.Command) != cmd {
 		return false
 	}
 	states := m.State
+	if len(states) == 0 && isIgnore {
+		states = []string{"any"} // the command-dependent default is a property of match blocks only
+	}
 	if len(states) == 0 {
 		if cmd == "ci" {
 			states = []string{"added", "modified", "renamed"} // documented default
@@ -174,16 +177,16 @@ func refCond(naive bool, m config.Match, cmd string, e discovery.Entry) bool {
 
 func refApplies(naive bool, rule config.Rule, cmd string, e discovery.Entry) bool {
 	for _, ig := range rule.Ignore {
-		if refCond(naive, ig, cmd, e) {
+		if refCond(naive, ig, cmd, e, true) {
 			return false
 		}
 	}
 	if len(rule.Match) == 0 {
 		// an absent match block still carries the command-dependent state default
-		return refCond(naive, config.Match{}, cmd, e)
+		return refCond(naive, config.Match{}, cmd, e, false)
 	}
 	for _, m := range rule.Match {
-		if refCond(naive, m, cmd, e) {
+		if refCond(naive, m, cmd, e, false) {
 			return true
 		}
 	}
